@@ -417,6 +417,137 @@ def row_symmetry(year):
     return obs
 
 
+def sums_count_every_copy(year):
+    """A total over the copies of a form counts every copy: sum() never runs over a set (a set keeps one of two equal amounts, so raising
+    an amount until it equals another copy's LOWERS the total - "a larger deductible expense never raises tax" and the withholding clause
+    both fail).  AST frame over every line and the helpers it calls; one obligation per year, one per offending line."""
+    import ast
+    import types as _types
+    from . import c05
+    obs, n = [], 0
+    for form, fld in extract.all_lines(year):
+        fn = extract.line_function(fld)
+        stack, seen, bad = [fn], set(), []
+        while stack:
+            g = stack.pop()
+            if id(g) in seen:
+                continue
+            seen.add(id(g))
+            try:
+                node = extract.func_ast(g)
+            except Exception:
+                continue
+            for c in ast.walk(node):
+                if isinstance(c, ast.Call) and isinstance(c.func, ast.Name):
+                    if c.func.id in ('sum', 'fsum') and c.args and (isinstance(c.args[0], (ast.Set, ast.SetComp)) or c05.hash_ordered(g, c.args[0])):
+                        bad.append(f'sum over a set at line {c.lineno}: {ast.unparse(c)[:120]}')
+                    ok, obj = extract.resolve_name(g, c.func.id)
+                    if ok and isinstance(obj, _types.FunctionType) and obj.__code__.co_filename.startswith(extract.REPO):
+                        stack.append(obj)
+        n += 1
+        if bad:
+            fid = f'{fn.__code__.co_filename.split("habutax/")[-1]}:{fn.__code__.co_firstlineno}'
+            obs.append(Ob(id=f'C16/{year}/sums/{fld.name()}', status=oblig.REFUTED, backend='ast-scan', function=fid, clause=f'NOT: {fld.name()} counts every copy in its totals: ' + bad[0],
+                          witness={'sums': bad[:3]}, replay={'reproduced': True, 'static': True, 'python': 'sum({9000.0, 9000.0}) == 9000.0 while sum({9000.0, 8999.0}) == 17999.0'}))
+    if not any(o.id.startswith(f'C16/{year}/sums/') for o in obs):
+        obs.append(Ob(id=f'C16/{year}/sums/all-lines', backend='ast-scan', function=f'every line definition of {year}', clause='no total is taken over a set: equal amounts on two copies are both counted', vc=f'{n} line(s)'))
+    return obs
+
+
+def agi_monotone(year):
+    """Line-level part of "more wages never lower total tax": every real-valued line outside Form 1040 that reads adjusted gross income
+    directly moves with it in the direction contracts/agi_monotone.json states (other reads fixed); a line that reads it and is not
+    listed is reported.  z3 over the line summary, two copies of the AGI symbol."""
+    with open(os.path.join(oblig.VERIF, 'contracts', 'agi_monotone.json')) as f:
+        table = json.load(f).get(str(year), {})
+    cat = linevc.Cat.get(year)
+    graph = static_reads(year)
+    obs = []
+    x = linevc.read_symbol('v', '1040.11', 'real')
+    x2 = z3.Real('agi_after')
+    for line, reads in sorted(graph.items()):
+        if 'v|1040.11' not in reads or line.startswith('1040.'):
+            continue
+        fld = cat.fields[line]
+        if linevc.field_kind(fld)[0] != 'real':
+            continue
+        oid = f'C16/{year}/agi/{line}'
+        want = table.get(line)
+        if want is None:
+            obs.append(Ob(id=oid, status=oblig.REFUTED, backend='ast-scan', function=line, clause=f'NOT: {line} reads adjusted gross income and is listed in contracts/agi_monotone.json with its direction',
+                          witness={'line': line}, replay={'reproduced': True, 'static': True}))
+            continue
+        t0 = time.time()
+        sm = summary.Summary(year, fld, max_paths=600)
+        if sm.unsupported or sm.value() is None:
+            rep = native_agi(year, line, want, None)
+            obs.append(Ob(id=oid, status=oblig.REFUTED if rep.get('reproduced') else oblig.UNDECIDED, backend='native' if rep.get('reproduced') else 'none', function=line,
+                          clause=f'NOT: {line} is {want} in adjusted gross income', solver_output='line outside the subset: ' + str((sm.unsupported or ['no numeric summary'])[0]), witness=rep, replay=rep))
+            continue
+        F, R = sm.value(), sm.returns()
+        F2, R2 = z3.substitute(F, (x, x2)), z3.substitute(R, (x, x2))
+        facts = [f for p in sm.paths for f in p.facts if not z3.is_quantifier(f)]
+        facts += [z3.substitute(f, (x, x2)) for f in facts]
+        goal = (F >= F2) if want == 'nonincreasing' else (F <= F2)
+        st, model, be, secs, txt = smt.prove(facts + [x <= x2, R, R2], goal, 10000)
+        clause = f'{line} is {want} in adjusted gross income (1040.11), everything else it reads held fixed'
+        if st == 'discharged':
+            obs.append(Ob(id=oid, backend=be, function=line, time_s=time.time() - t0, clause=clause, vc=f'{len(sm.paths)} path(s), two copies of 1040.11'))
+        else:
+            rep = native_agi(year, line, want, model)
+            obs.append(Ob(id=oid, status=oblig.REFUTED if (st == 'refuted' or rep.get('reproduced')) else oblig.UNDECIDED, backend=be, function=line, clause='NOT: ' + clause,
+                          solver_output=str(txt)[:200], witness={'model': {k: v for k, v in list((model or {}).items())[:16]}}, replay=rep))
+    for line in table:
+        if line in cat.fields and 'v|1040.11' not in graph.get(line, ()):
+            obs.append(Ob(id=f'C16/{year}/agi/{line}', status=oblig.ERROR, function=line, solver_output='listed in contracts/agi_monotone.json but does not read 1040.11 (table out of date)'))
+    return obs
+
+
+def native_agi(year, line, want, model):
+    """Concretisation: the real line at a sweep of adjusted gross incomes (the other reads from the model, else type defaults chosen to
+    make phase-outs visible: amounts 1 200, questions answered yes)."""
+    try:
+        inputs, values = replay.concretise(model, year) if model is not None else ({}, {})
+    except Exception:
+        inputs, values = {}, {}
+    values = {k: v for k, v in values.items() if k != '1040.11'}
+    cat = linevc.Cat.get(year)
+    if model is None:
+        for r in static_reads(year).get(line, ()):
+            acc, nm = r.split('|', 1)
+            if '{n}' in nm or nm == '1040.11':
+                continue
+            spec = (cat.inputs if acc == 'i' else cat.fields).get(nm)
+            if spec is None:
+                continue
+            kind = (linevc.input_kind(spec) if acc == 'i' else linevc.field_kind(spec))[0]
+            tgt = inputs if acc == 'i' else values
+            if kind == 'real':
+                tgt[nm] = 1200.0
+            elif kind == 'bool':
+                tgt[nm] = True
+            elif kind == 'int':
+                tgt[nm] = 1
+    pts = [0.0, 40000.0, 49000.0, 50400.0, 52600.0, 54900.0, 99000.0, 100400.0, 102990.0, 103010.0, 105500.0, 108999.0, 111000.0, 150000.0, 250000.0, 500000.0]
+    runs, last, bad = [], None, None
+    for a in pts:
+        r = replay.replay_line(year, line, dict(inputs), dict(values, **{'1040.11': a}))
+        if r.get('outcome') != 'return':
+            runs.append({'agi': a, 'outcome': r.get('exc') or r.get('outcome')})
+            continue
+        try:
+            val = float(r.get('value'))
+        except Exception:
+            continue
+        runs.append({'agi': a, 'value': val})
+        if last is not None and ((want == 'nonincreasing' and val > last[1] + 1e-9) or (want == 'nondecreasing' and val < last[1] - 1e-9)):
+            bad = bad or {'agi': [last[0], a], 'line_value': [last[1], val]}
+        last = (a, val)
+    if bad is None and model is not None:
+        return native_agi(year, line, want, None)       # the model's other reads hide the effect: try amounts 1 200 / yes answers
+    return {'reproduced': bad is not None, 'kind': 'agi-sweep', 'violating_pair': bad, 'runs': runs[:16], 'inputs': {k: repr(v) for k, v in inputs.items()}, 'values': {k: repr(v) for k, v in values.items()}}
+
+
 def native_rows(year, line, rows):
     """Replay: three filled rows (one with a blank text column), every order of them: the real line must give one result."""
     import itertools
@@ -596,6 +727,8 @@ def run(tier, seed, t0):
         tasks.append(Task(f'C16/{year}/withholding', withholding, year, weight=300))
         tasks.append(Task(f'C16/{year}/withheld-boxes', withheld_boxes, year, weight=100))
         tasks.append(Task(f'C16/{year}/rows', row_symmetry, year, weight=100))
+        tasks.append(Task(f'C16/{year}/agi', agi_monotone, year, weight=60))
+        tasks.append(Task(f'C16/{year}/sums', sums_count_every_copy, year, weight=30))
     obs = oblig.run_tasks(tasks)
     functions = sorted({o.function for o in obs if o.function and not o.bounded})
     return oblig.finish('C16', tier, seed, obs, t0, functions=functions[:50] + [f'... {len(functions)} in all'],
